@@ -144,6 +144,47 @@ fn main() {
 "#,
             expect: "0\n[1, 2, 3]\n[7, 7, 7, 7, 7] 1024\n7\n1 [\"x\", \"x\", \"x\", \"x\"]\n4194304\n4194304\n",
         }],
+        "C10" => vec![Caller {
+            what: "the [T; U] <-> GenericArray slice views from code generic over `const U: usize` that carries only the documented bound `Const<U>: IntoArrayLength`",
+            externs: &[],
+            src: r#"
+use generic_array::typenum::Const;
+use generic_array::{ConstArrayLength, IntoArrayLength};
+fn tour<const U: usize>(count: usize) -> (bool, bool, usize, u32)
+where
+    Const<{ U }>: IntoArrayLength,
+{
+    let mut rows: Vec<[u32; U]> = (0..count).map(|r| [r as u32; U]).collect();
+    let addr = rows.as_ptr() as usize;
+    let ga: &[GenericArray<u32, ConstArrayLength<{ U }>>] = GenericArray::from_chunks(&rows);
+    let same = ga.as_ptr() as usize == addr && ga.len() == count;
+    let back: &[[u32; U]] = GenericArray::into_chunks(ga);
+    let same2 = back.as_ptr() as usize == addr && back.len() == count;
+    let gm: &mut [GenericArray<u32, ConstArrayLength<{ U }>>] = GenericArray::from_chunks_mut(&mut rows);
+    for c in gm.iter_mut() {
+        for x in c.iter_mut() {
+            *x += 1;
+        }
+    }
+    let bm: &mut [[u32; U]] = GenericArray::into_chunks_mut(gm);
+    let n = bm.len();
+    if let Some(r) = bm.last_mut() {
+        if U > 0 {
+            r[U - 1] += 100;
+        }
+    }
+    let flat: &[u32] = GenericArray::<u32, ConstArrayLength<{ U }>>::slice_from_chunks(GenericArray::from_chunks(&rows));
+    (same, same2, n, flat.iter().sum())
+}
+fn main() {
+    println!("{:?}", tour::<3>(4));
+    println!("{:?}", tour::<1>(5));
+    println!("{:?}", tour::<8>(0));
+    println!("{:?}", tour::<16>(2));
+}
+"#,
+            expect: "(true, true, 4, 130)\n(true, true, 5, 115)\n(true, true, 0, 0)\n(true, true, 2, 148)\n",
+        }],
         "C14" => vec![Caller {
             what: "{:x} / {:X} / {:.3x} in code generic over N with the bounds of `impl LowerHex` / `impl UpperHex`",
             externs: &[],
